@@ -54,6 +54,13 @@ func c16Stdin(c *Ctx, cmd *exec.Cmd, stdin []byte, args []string) (cleanup func(
 		}
 	}
 	c16StdinSeq++
+	if len(stdin) == 0 && c16StdinSeq%2 == 0 {
+		// nothing to read: descriptor 0 on the null device (a character device, like a terminal),
+		// the way cron, systemd and "</dev/null" start a process
+		c.Count("cli_stdin.null-device", 1)
+		cmd.Stdin = nil
+		return
+	}
 	kind := c16StdinSeq % 4
 	c.Count("cli_stdin."+[]string{"pipe", "regular-file", "regular-file-at-an-offset", "socket"}[kind], 1)
 	switch kind {
